@@ -93,6 +93,11 @@ class OutputSuppressionContext:
             sys.stderr = sys.__stderr__
 
     def __enter__(self) -> None:
+        if OutputSuppressionContext._null_file.closed:
+            # A previous SUT call closed the shared null file (``sys.stdout.close()``).
+            OutputSuppressionContext._null_file = open(  # noqa: PLW1514, PTH123, SIM115
+                os.devnull, mode="w"
+            )
         # Save OS-level fds before the SUT has a chance to close them.
         for fd in (0, 1, 2):
             with contextlib.suppress(OSError):
